@@ -77,6 +77,9 @@ def parse_smtlib(text: str):  # noqa: C901
 
         # Close s-expression
         elif char == ')':
+            if not exprs:
+                # ignore unmatched closing parenthesis
+                continue
             cur_expr = exprs.pop()
 
             # Do we have nested s-expressions?
